@@ -43,12 +43,12 @@ _BRACKETS = ["n=1", "n<10", "n<100", "n<1000", "n<10000", "n>=10000"]
 REQUIRED_FEATURES = {
     "quick": dict({"bracket:" + b: 3 for b in _BRACKETS}, **{
         "throughput-all-zero": 5, "throughput-median-zero": 5, "latency-all-zero": 5, "warmup-and-normal": 50, "only-warmup": 5, "dependent-timing": 20,
-        "node-level-records": 20, "failed-requests": 50, "non-ascii-task": 50, "transfer-externalizable": 50, "section:ml": 10, "section:transform": 10,
+        "node-level-records": 20, "failed-requests": 50, "non-ascii-task": 50, "transfer-externalizable": 50, "transfer-after-every-step": 30, "section:ml": 10, "section:transform": 10,
         "section:disk-usage": 10, "section:per-shard": 10, "section:ingest-pipeline": 10, "structure-case": 100, "error-rate-warmup-differs": 10,
     }),
     "thorough": dict({"bracket:" + b: 30 for b in _BRACKETS}, **{
         "throughput-all-zero": 50, "throughput-median-zero": 50, "latency-all-zero": 50, "warmup-and-normal": 500, "only-warmup": 50, "dependent-timing": 200,
-        "node-level-records": 200, "failed-requests": 500, "non-ascii-task": 500, "transfer-externalizable": 500, "section:ml": 100, "section:transform": 100,
+        "node-level-records": 200, "failed-requests": 500, "non-ascii-task": 500, "transfer-externalizable": 500, "transfer-after-every-step": 300, "section:ml": 100, "section:transform": 100,
         "section:disk-usage": 100, "section:per-shard": 100, "section:ingest-pipeline": 100, "structure-case": 1000, "error-rate-warmup-differs": 100,
     }),
 }
@@ -122,9 +122,11 @@ def build_track(spec):
     return trk, ch
 
 
-def fill_store(store, spec):
+def fill_store(store, spec, lo=0, hi=None):
     tasks = spec["tasks"]
     for i, r in enumerate(spec["records"]):
+        if i < lo or (hi is not None and i >= hi):
+            continue
         k = r["k"]
         at, rt = 1_600_000_000 + i, i * 0.01
         if k == "req":
@@ -174,14 +176,28 @@ def run_real(spec, root, race_id):
     cfg = make_cfg(root, race_id, spec)
     trk, ch = build_track(spec)
     store = metrics.metrics_store(cfg, read_only=False, track=trk.name, challenge=ch.name)
-    fill_store(store, spec)
-    if spec["transfer"]:
+    chunks = int(spec["transfer"])
+    if chunks <= 1:
+        fill_store(store, spec)
+    if chunks == 1:
         # racecontrol.BenchmarkCoordinator.on_benchmark_complete: the driver's store arrives as a memento
         memento = store.to_externalizable(clear=True)
         store.close()
         store = metrics.metrics_store(cfg, read_only=False, track=trk.name, challenge=ch.name)
         store.bulk_add(memento)
         store.flush()
+    elif chunks > 1:
+        # a race with several steps: after every step the driver ships what ITS store has collected since the last time
+        # (Driver.move_to_next_task: to_externalizable(clear=True)) and race control adds it to its own store (on_task_finished: bulk_add)
+        coordinator = metrics.metrics_store(cfg, read_only=False, track=trk.name, challenge=ch.name)
+        n = len(spec["records"])
+        bounds = [n * k // chunks for k in range(chunks + 1)]
+        for lo, hi in zip(bounds, bounds[1:]):
+            fill_store(store, spec, lo, hi)
+            coordinator.bulk_add(store.to_externalizable(clear=True))
+        store.close()
+        coordinator.flush()
+        store = coordinator
     race = make_race(cfg, trk, ch)
     results = metrics.calculate_results(store, race)
     store.close()
@@ -662,6 +678,8 @@ def spec_features(spec):
         feats.add("node-level-records")
     if spec["transfer"]:
         feats.add("transfer-externalizable")
+    if int(spec["transfer"]) > 1:
+        feats.add("transfer-after-every-step")
     if any(ord(c) > 127 for t in spec["tasks"] for c in t["name"]):
         feats.add("non-ascii-task")
     per = {}
